@@ -860,8 +860,9 @@ def last_axis_product_sum(t):
         if len(pos) == 3 and isinstance(const_val(pos[0]), str):
             sub = const_val(pos[0]).replace(' ', '')
             import re
-            m = re.fullmatch(r'\.\.\.([a-zA-Z]),\.\.\.([a-zA-Z])->\.\.\.', sub)
-            if m and m.group(1) == m.group(2):
+            # '...d,...d->...' and, with named leading letters that are all kept, '...fd,...fd->...f'
+            m = re.fullmatch(r'\.\.\.([a-zA-Z]*)([a-zA-Z]),\.\.\.([a-zA-Z]*)([a-zA-Z])->\.\.\.([a-zA-Z]*)', sub)
+            if m and m.group(2) == m.group(4) and m.group(1) == m.group(3) == m.group(5) and m.group(2) not in m.group(1):
                 return strip_views(pos[1]), strip_views(pos[2]), False
         return None
     if not is_call_to(t, 'numpy.sum'):
